@@ -77,7 +77,9 @@ DerivShape(e) ==
 TraceDeriv ==
     /\ IsEvent("deriv")
     /\ LET e == Rec[l] IN
-       IF ~(Finite(e.a) /\ \A i \in 2..Len(e.a) : Rep(BRMul(BR(i - 1), Val(e.a[i])))) THEN TRUE
+       \* scope: every finite coefficient vector whose products (i+1) c_(i+1) do not overflow.  (A product with a small
+       \* integer cannot underflow: subnormal coefficients are in scope, and their products are exact.)
+       IF ~(Finite(e.a) /\ \A i \in 2..Len(e.a) : BRLt(BRAbs(BRMul(BR(i - 1), Val(e.a[i]))), BRPow2(1024))) THEN TRUE
        ELSE /\ Tally(12, TRUE)
             /\ Judge(DerivOK(e), "formal derivative")
             /\ Drift(DerivShape(e), "derivative lane not a single correctly rounded product")
